@@ -461,5 +461,9 @@ def main(tier: str, only=None) -> int:
         "functions_encoded": [common.src_ref(B.GraphBuilder), common.src_ref(B.OpBuilder)],
     })
     run.assumptions += ["shadow evaluation uses symonnx's operator rules and the property's promotion rule (independent of the builder's casting code)",
-                        "naming / module-tree verdicts are enumeration"]
+                        "random module-tree verdicts are enumeration",
+                        "c18.names.*: construction histories (nesting, attaching to a named/unnamed root, append/extend after naming, slicing) "
+                        "are chosen by solver variables concretised by comparison forks; the nn/GraphBuilder code then runs concretely per history"]
+    from vp import xh
+    xh.run_obligations(run, ["vp.harness.c18_names"], tier, only)
     return run.finish()
